@@ -15,6 +15,24 @@ plan = json.loads(plan_path.read_text())
 sys.path.insert(0, str(HERE.parent))
 from sim import fsseam  # noqa: E402
 
+import sympy.core.random as _sympy_random  # noqa: E402
+
+# seam: the simulation owns sympy's entropy-seeded RNG (shuffled assumption queries)
+_sympy_random.seed(int(plan.get("sympy_seed", 0)))
+
+if plan.get("mode") == "api":
+    # reference side of a confirmation: the library API in a fresh, equally seeded process
+    from sim.c18_world import api_text
+
+    with open(plan["data"], "rb") as _fh:
+        _data = _fh.read()
+    _text = api_text(plan["kind"], _data, plan["stem"], plan["suffix"], plan["ro"], Path(plan["tmp"]))
+    with open(plan["out"], "wb") as _fh:
+        _fh.write(b"INVALID\n" if _text is None else b"OK\n" + _text.encode("utf-8"))
+    sys.stdout.flush()
+    sys.stderr.flush()
+    os._exit(0)
+
 code = 1
 try:
     if plan.get("fault"):
